@@ -118,7 +118,8 @@ def r15_1(ctx: Ctx):
         if call_name(c) == "append" and c.args and isinstance(c.args[0], ast.Tuple) and len(c.args[0].elts) == 2 \
                 and isinstance(c.func.value, ast.Name) and c.func.value.id != atoms_list:
             n_bonds += 1
-            e0, e1 = c.args[0].elts
+            from ..pat import expand_single_defs as _xsd15
+            e0, e1 = [_xsd15(fn, e_, 1, skip=(map_var,)) for e_ in c.args[0].elts]
             def translated(e):
                 return isinstance(e, ast.Subscript) and isinstance(e.value, ast.Name) and e.value.id == map_var
             ends = [norm(e.slice) if translated(e) else None for e in (e0, e1)]
